@@ -242,7 +242,7 @@ bufferevent_get_rlim_max_(struct bufferevent_private *bev, int is_write)
 
 	if (bev->rate_limiting->cfg) {
 		bufferevent_update_buckets(bev);
-		max_so_far = LIM(bev->rate_limiting->limit);
+		CLAMPTO(LIM(bev->rate_limiting->limit));
 	}
 	if (bev->rate_limiting->group) {
 		struct bufferevent_rate_limit_group *g =
